@@ -2,6 +2,7 @@ import Proofs.C08.Num
 import Proofs.C08.Core
 import Proofs.C08.Gen
 import Proofs.C08.Refine
+import Proofs.C08.Sig
 import Proofs.C08.Sim
 import Model.C08.Verify
 import Generated.Script
@@ -280,15 +281,15 @@ theorem verify_expansions_refine_Core (cx : Btclib.Ctx) (sc : Bytes) (stack alt 
     and the three passes together count ONE op code (refusing iff that count passes 201, as Core's `++nOpCount`),
     advance the index by ONE, consume exactly the op code's byte, and leave Core's stacks (previous theorem). -/
 theorem equalverify_expansion_bookkeeping (cx : Btclib.Ctx) (sc : Bytes) (stack alt : List Bytes) (cond : List Bool)
-    (cnt idx : Int) (rest : Bytes) (hexec : cond.all id = true) (hsize : stack.length + alt.length ≤ 1000) :
+    (cnt idx : Int) (cso : Nat) (rest : Bytes) (hexec : cond.all id = true) (hsize : stack.length + alt.length ≤ 1000) :
     Refine.iter3 cx { stack := stack, alt := alt, cond := cond, opCodeNum := cnt, scriptIndex := idx,
-                      s := UInt8.ofNat 0x88 :: rest } =
+                      s := UInt8.ofNat 0x88 :: rest, codesepOffset := cso } =
       (if cnt + 1 > 201 then none
        else match Refine.coreRes (Core.execStackOp (Refine.coreCx cx sc) stack alt 0x88) with
          | some (s, a) => some (.more { stack := s, alt := a, cond := cond, opCodeNum := cnt + 1, scriptIndex := idx + 1,
-                                        s := rest })
+                                        s := rest, codesepOffset := cso })
          | none => none) := by
-  rw [Refine.equalverify_windback cx stack alt cond cnt idx rest hexec hsize,
+  rw [Refine.equalverify_windback cx stack alt cond cnt idx cso rest hexec hsize,
     (Refine.expansion_refines cx sc stack alt).1]
   split
   · rfl
@@ -296,26 +297,92 @@ theorem equalverify_expansion_bookkeeping (cx : Btclib.Ctx) (sc : Bytes) (stack 
     | none => rfl
     | some p => rfl
 
+/-- T3, the signature op codes at op level, RELATIVE TO A SHARED PER-SIGNATURE FUNCTION.  `Sig.Shared cx sc` says: the
+    model's `op_checksig` parameter is `Btclib.sharedChecksig cx.checker cx.flags cx.segwit` — Core's sequence for one
+    signature and one key (script code from `codesep_offset` with FindAndDelete of `signatures`, `CheckSignatureEncoding`,
+    `CheckPubKeyEncoding`, `checker.CheckECDSASignature`) over the SAME `Core.Checker` Core's side is given — and
+    `script_bytes` is the script.  Under it, for every machine state, flag set and checker:
+    * OP_CHECKSIG — btclib's arm (`pub_key = stack.pop(); signature = stack.pop()`, `op_checksig`, `assert_nullfail`,
+      `encode_num(int(result))`) leaves what `case OP_CHECKSIG` leaves and refuses when it does;
+    * OP_CHECKSIGVERIFY — that arm followed by OP_VERIFY on what it pushed is `case OP_CHECKSIGVERIFY`;
+    * OP_CHECKMULTISIG / OP_CHECKMULTISIGVERIFY — btclib's arm run at op count `c` (`_to_num` of both counts,
+      `assert_pub_key_num`, `script_op_count(op_code_num, pub_key_num)`, the pops with their IndexError, `assert_signature_num`,
+      `assert_nulldummy`, the key/signature walk with its two `break`s, `assert_nullfail`), followed for the VERIFY form by
+      the pass over OP_VERIFY that counts one more op code (`d = 1`, `v = true`), leaves the stack and op count
+      `case OP_CHECKMULTISIG(VERIFY)` leaves when run at op count `c + d`, and refuses when it does.
+    NOT proved here (and false on the five recorded divergence classes): that btclib's real `op_checksig`
+    (`fix_signature`, `check_pub_key`, `calculate_script_code`, `sig_hash`, `dsa_verify`) IS that sequence; this is tied
+    by the `bt.eval` / `core.eval` streams only. -/
+theorem signature_ops_refine_Core_shared (cx : Btclib.Ctx) (sc : Bytes) (h : Sig.Shared cx sc)
+    (pos opos : Nat) (m : Core.Machine) (d : Nat) (v : Bool) :
+    Refine.okOpt (Core.execPlain (Refine.coreCx cx sc) pos opos m 0xac)
+      = (Btclib.checksigOn cx m.stack m.codeStart).map (fun s => { m with stack := s }) ∧
+    Refine.okOpt (Core.execPlain (Refine.coreCx cx sc) pos opos m 0xad)
+      = ((Btclib.checksigOn cx m.stack m.codeStart).bind fun s =>
+          match s with
+          | top :: r => if toBool top then some r else none
+          | [] => none).map (fun s => { m with stack := s }) ∧
+    (Btclib.checkMultisigOn cx m.stack m.opCount m.codeStart).bind (Sig.postMsig d v)
+      = (Refine.okOpt (Core.execMultisig (Refine.coreCx cx sc) { m with opCount := m.opCount + d } v)).map
+          (fun m' => (m'.stack, (m'.opCount : Int))) :=
+  ⟨Sig.checksig_core cx sc h pos opos m, Sig.checksigverify_core cx sc h pos opos m, Sig.multisig_core cx sc h m d v⟩
+
+/-- the shared-checker hypothesis is inhabited, and the signature arms do compute under it: a 1-of-1 CHECKMULTISIG and a
+    CHECKSIG over a checker that accepts exactly the signature `[0x30, 0x01]` -/
+private def demoChecker : Core.Checker :=
+  ⟨fun sig _ _ _ => .ok (sig == [0x30, 0x01]), fun _ _ _ _ => some .SCHNORR_SIG⟩
+private def demoBt (fl : Nat) : Btclib.Ctx :=
+  { flags := fl, segwit := false, hashes := ⟨id, id, id⟩, checker := demoChecker,
+    opChecksig := Btclib.sharedChecksig demoChecker fl false }
+example : Btclib.eval (demoBt 0) [0x02, 0x30, 0x01, 0x01, 0x02, 0xac] [] = .ok [[1]] := by decide
+example : Btclib.eval (demoBt 0) [0x02, 0x30, 0x02, 0x01, 0x02, 0xac] [] = .ok [[]] := by decide
+example : Btclib.eval (demoBt Core.FLAG_NULLFAIL) [0x02, 0x30, 0x02, 0x01, 0x02, 0xac] [] = .refused := by decide
+example : Btclib.eval (demoBt 0) [0x00, 0x02, 0x30, 0x01, 0x51, 0x01, 0x02, 0x51, 0xae] [] = .ok [[1]] := by decide
+example : Btclib.eval (demoBt 0) [0x00, 0x02, 0x30, 0x01, 0x51, 0x01, 0x02, 0x51, 0xaf, 0x51] [] = .ok [[1]] := by decide
+example : Btclib.eval (demoBt 0) [0x51, 0xab, 0x02, 0x30, 0x01, 0x01, 0x02, 0xad, 0x51] [] = .ok [[1], [1]] := by decide
+
 /-- T3 at LOOP level, `_partial`: `Sim.covered script` (decidable, evaluated by the driver on every generated program)
     says that every instruction Core's walk reads from the script is one of: a push of any of the four widths, OP_0,
     OP_1NEGATE, OP_1..OP_16, OP_NOP, OP_NOP1/4..10, the 46 OPERATIONS entries of `operations_refine_Core_partial`, OP_PICK,
     OP_ROLL, OP_CHECKLOCKTIMEVERIFY, OP_CHECKSEQUENCEVERIFY, OP_IF, OP_NOTIF, OP_ELSE, OP_ENDIF, OP_VERIF, OP_VERNOTIF,
-    OP_RESERVED, OP_VER, OP_RESERVED1/2, OP_EQUALVERIFY, OP_NUMEQUALVERIFY or a disabled op code.  For such a script, every initial stack within the limit,
-    every flag set, transaction context and hash functions, the btclib-shaped interpreter (`_run_ops` as written: byte
-    cursor, stack check at the top of the pass, sentinel condition stack, counts through the translated
-    `script_op_count`) and Core's `EvalScript` reach the same verdict and the same final stack.  The simulation relation
-    (`Sim.R`): stacks and altstacks equal, `condition_stack = vfExec ++ [True]`, op counts equal; Core's size check at
+    OP_RESERVED, OP_VER, OP_RESERVED1/2, OP_EQUALVERIFY, OP_NUMEQUALVERIFY, a disabled op code, OP_CODESEPARATOR,
+    OP_CHECKSIG, OP_CHECKSIGVERIFY, OP_CHECKMULTISIG, OP_CHECKMULTISIGVERIFY, or a byte from 0xba up — i.e. EVERY byte
+    value: `Sim.covered` holds of every script (`every_script_is_covered`), it is kept as a hypothesis so that the
+    statement does not silently widen.  For such a script, every initial stack within the limit,
+    every flag set, transaction context, hash functions and signature checker, the btclib-shaped interpreter (`_run_ops`
+    as written: byte cursor, stack check at the top of the pass, sentinel condition stack, counts through the translated
+    `script_op_count`, `*VERIFY` expansions, `codesep_offset = op_code_stops[script_index]`) and Core's `EvalScript`
+    reach the same verdict and the same final stack.  The simulation relation
+    (`Sim.R`): stacks and altstacks equal, `condition_stack = vfExec ++ [True]`, op counts equal, `codesep_offset =
+    pbegincodehash`; the loop invariant also carries `script_index + 1 = opcode_pos` and `pc` = the bytes of the
+    instructions done, which is what makes `op_code_stops[script_index]` Core's `pc`.  Core's size check at
     the end of a step is btclib's check at the top of the next pass.
-    OP_EQUALVERIFY and OP_NUMEQUALVERIFY are covered too: in an executing branch they take three passes of btclib's loop
-    (expansion re-fed into the byte stream, index and count wound back by two) against one step of Core's.
-    Not covered: OP_CODESEPARATOR, the signature op codes, bytes 0xba..0xff. -/
+    The four `*VERIFY` op codes take three passes of btclib's loop (expansion re-fed into the byte stream, index and count
+    wound back by two) against one step of Core's.
+    HYPOTHESIS `hsig` (what makes this `_partial`): the model's `op_checksig` parameter is `Btclib.sharedChecksig` over
+    `cx.checker`, the checker `Refine.coreCx` hands Core's side — both evaluators call the same checker through Core's
+    per-signature sequence.  The FULL statement would have btclib's own `op_checksig` (`fix_signature`, `check_pub_key`,
+    `calculate_script_code`, `sig_hash`, `dsa_verify`) in its place; that is not proved, is FALSE on the five recorded
+    divergence classes (lax DER, BIP66 value checks, three policy-flag orderings), and stays tied by streams.
+    Also outside: the tapscript loop (`engine/tapscript.py`), which is a different function (see `Props` below). -/
 theorem btclib_eval_refines_core_partial (cx : Btclib.Ctx) (script : Bytes) (stack : List Bytes)
+    (hsig : cx.opChecksig = Btclib.sharedChecksig cx.checker cx.flags cx.segwit)
     (hcov : Sim.covered script = true) (hsz : stack.length ≤ 1000) :
     Btclib.eval cx script stack = Sim.toOut (Core.evalWith (Refine.coreCx cx script) stack 0) :=
-  Sim.eval_refines cx script stack hcov hsz
+  Sim.eval_refines cx script stack hsig hcov hsz
+
+/-- every byte value is one of the op codes the loop-level refinement speaks about -/
+theorem every_opcode_is_covered : (List.range 256).all Sim.coveredCode = true := by decide +kernel
 
 example : Sim.covered [0x51, 0x63, 0x52, 0x93, 0x67, 0x00, 0x68, 0x02, 0xaa, 0xbb, 0x75, 0xb1, 0x76, 0x88, 0x7e] = true := by decide
-example : Sim.covered [0x51, 0xac] = false := by decide
+-- p2pkh (hash abbreviated to 2 bytes), p2pk, 2-of-3 multisig (keys abbreviated to 1 byte), a script with OP_CODESEPARATOR before OP_CHECKSIGVERIFY
+example : Sim.covered [0x76, 0xa9, 0x02, 0x11, 0x11, 0x88, 0xac] = true := by decide
+example : Sim.covered [0x51, 0xac] = true := by decide
+example : Sim.covered [0x52, 0x01, 0x02, 0x01, 0x03, 0x01, 0x04, 0x53, 0xae] = true := by decide
+example : Sim.covered [0x51, 0xab, 0x01, 0x02, 0xad, 0x51, 0xaf] = true := by decide
+-- the theorem's hypotheses are met together and its two sides compute: a CHECKSIG that succeeds under the demo checker
+example : (demoBt 0).opChecksig = Btclib.sharedChecksig (demoBt 0).checker (demoBt 0).flags (demoBt 0).segwit := rfl
+example : Core.evalWith (Refine.coreCx (demoBt 0) [0x02, 0x30, 0x01, 0x01, 0x02, 0xac]) [] 0 = .ok [[1]] := by decide
 
 example : (0x93 : Nat) ∈ Refine.covered ∧ (0x76 : Nat) ∈ Refine.covered := by decide
 
